@@ -15,7 +15,8 @@
    Everything is written statement by statement after buffer.py:
    CompletionState.go_to_index / new_text_and_position, Buffer.set_document,
    _text_changed, _cursor_position_changed, insert_text, delete_before_cursor,
-   cursor_position setter, complete_next / complete_previous /
+   delete, swap_characters_before_cursor, the text setter, validate (the
+   synchronous one), cursor_position setter, complete_next / complete_previous /
    cancel_completion / go_to_completion / _set_completions / start_completion,
    _create_completer_coroutine (async_completer incl. proceed(), the _Retry
    branch, select_first / select_last / insert_common_part),
@@ -201,6 +202,42 @@ Definition move_cursor (s : state) (p : Z) : state :=
   let v := if v <? 0 then 0 else v in
   let nc := Z.max 0 v in
   if nc =? cur s then s else cursor_changed (set_doc_fields s (text s) nc).
+
+(* the `text` setter: the cursor is clamped first (through its own setter),
+   then the text is replaced; a changed text fires _text_changed - the cursor
+   does not move, so nothing but _text_changed can clear the menu here *)
+Definition set_text (s : state) (v : str) : state :=
+  let s1 := if len v <? cur s then move_cursor s (len v) else s in
+  if str_eqb v (text s1) then s1 else text_changed (set_doc_fields s1 v (cur s1)).
+
+(* Buffer.delete(count): forward delete, cursor stays *)
+Definition delete_fwd (s : state) (n : Z) : state :=
+  if cur s <? len (text s) then
+    let deleted := slice_to (slice_from (text s) (cur s)) n in
+    set_text s (slice_to (text s) (cur s) ++ slice_from (text s) (cur s + len deleted))
+  else s.
+
+(* swap_characters_before_cursor: same length, cursor stays *)
+Definition swap_chars (s : state) : state * Z :=
+  let pos := cur s in
+  if 2 <=? pos then
+    match index (text s) (pos - 2), index (text s) (pos - 1) with
+    | Some a, Some b => (set_text s (slice_to (text s) (pos - 2) ++ [b; a] ++ slice_from (text s) pos), 0)
+    | _, _ => (s, 2)
+    end
+  else (s, 0).
+
+(* Buffer.validate(set_cursor): the synchronous validation of the Enter key.
+   [ok]/[epos]: what validator.validate(document) does (returns / raises
+   ValidationError(cursor_position=epos)); without a validator always VALID *)
+Definition validate_sync (s : state) (ok : bool) (epos : Z) (setcur : bool) : state :=
+  if vst s =? 0 then
+    if vwt (cfg s) && negb ok then
+      let d := cur_doc s in
+      let s1 := if setcur then move_cursor s (Z.min (Z.max 0 epos) (len (text s))) else s in
+      set_val s1 2 (Some d)
+    else set_val s 1 (Some (cur_doc s))
+  else s.
 
 (* --- CompletionState -------------------------------------------------- *)
 Definition cs_with_idx (cs : cstate) (i : option Z) : cstate :=
@@ -493,7 +530,11 @@ Inductive label :=
 | CEnd (k : Z)
 | VReturn (k : Z) (ok : bool)
 | SReturn (k : Z) (v : option str)
-| InstallMenu (l : list (str * Z)).
+| InstallMenu (l : list (str * Z))
+| DeleteFwd (n : Z)
+| SetText (v : str)
+| Swap
+| Validate (ok : bool) (epos : Z) (setcur : bool).
 
 Definition step (s : state) (l : label) : state * Z :=
   match l with
@@ -511,6 +552,10 @@ Definition step (s : state) (l : label) : state * Z :=
   | VReturn k ok => vreturn s k ok
   | SReturn k v => sreturn s k v
   | InstallMenu l => install_menu s l
+  | DeleteFwd n => (delete_fwd s n, 0)
+  | SetText v => (set_text s v, 0)
+  | Swap => swap_chars s
+  | Validate ok epos sc => (validate_sync s ok epos sc, 0)
   end.
 
 Definition apply (s : state) (l : label) : state := fst (step s l).
@@ -540,6 +585,11 @@ Definition dec_label (x : sx) : option label :=
   | L [A 12; A k; ok] => match as_bool ok with Some ok => Some (VReturn k ok) | None => None end
   | L [A 13; A k; v] => match as_opt as_str v with Some v => Some (SReturn k v) | None => None end
   | L [A 14; L items] => match map_opt dec_comp items with Some l => Some (InstallMenu l) | None => None end
+  | L [A 15; A n] => Some (DeleteFwd n)
+  | L [A 16; v] => match as_str v with Some v => Some (SetText v) | None => None end
+  | L [A 17] => Some Swap
+  | L [A 18; ok; A epos; sc] =>
+      match as_bool ok, as_bool sc with Some ok, Some sc => Some (Validate ok epos sc) | _, _ => None end
   | _ => None
   end.
 
